@@ -4,6 +4,10 @@
 (* reproduce the logged return value and the logged abstract state (verified peers, their addresses,     *)
 (* services, known addresses).  The caches are NOT logged: they evolve as the specification says, and    *)
 (* get_verified_by_address may return any verified peer that has the address (GetByAddressG, ~strict).   *)
+(* The caller's collections of service ids are logged after every event too (e.bufs): the same objects   *)
+(* are handed to discover_services again and again (DiscoverServicesBuf) and changed in place by the     *)
+(* caller (CallerMutates); only CallerMutates (and the reading of a one-shot iterator) may move them, and *)
+(* CallerMutates moves nothing else.                                                                     *)
 EXTENDS Network, Json, IOUtils, TLCExt
 
 Traces == JsonDeserialize(IOEnv.TRACE_FILE)
@@ -20,6 +24,8 @@ Call(e) ==
   \/ e.op = "AddVerified"          /\ AddVerified(e.p, e.a)
   \/ e.op = "DiscoverAddress"      /\ DiscoverAddress(e.p, e.pa, e.a, e.sv, e.ns)
   \/ e.op = "DiscoverServices"     /\ DiscoverServices(e.p, e.pa, Range(e.ss))
+  \/ e.op = "DiscoverServicesBuf"  /\ DiscoverServicesBuf(e.p, e.pa, e.b)
+  \/ e.op = "CallerMutates"        /\ CallerMutates(e.b, Range(e.ss))
   \/ e.op = "RemoveByAddress"      /\ RemoveByAddress(e.a)
   \/ e.op = "RemovePeer"           /\ RemovePeer(e.p)
   \/ e.op = "LoadSnapshot"         /\ LoadSnapshot(Range(e.ss))
@@ -38,6 +44,7 @@ TraceNext == /\ l <= Len(Ev)
                   /\ verified' = Range(e.verified)
                   /\ addrOf' = [p \in Peers |-> [v4 |-> e.addr[p][1], v6 |-> e.addr[p][2]]]
                   /\ services' = [p \in Peers |-> Range(e.services[p])]
+                  /\ bufs' = [b \in Bufs |-> Range(e.bufs[b])]
                   /\ all' = [a \in Addrs |-> [known |-> e.all[a][1] = 1, intro |-> e.all[a][2],
                                                svc |-> e.all[a][3], ns |-> e.all[a][4] = 1]]
              /\ l' = l + 1 /\ UNCHANGED tid
@@ -46,4 +53,6 @@ TraceSpec == TraceInit /\ [][TraceNext]_tvars
 
 (* a trace is rejected exactly when some logged event is not an enabled step of the specification *)
 TraceAccepted == l <= Len(Ev) => ENABLED TraceNext
+(* for batches of corrupted histories (negative controls): NONE of them is followed to its end *)
+TraceRejected == l <= Len(Ev)
 =============================================================================
